@@ -1,55 +1,67 @@
 ---- MODULE CallFrames ----
-(* C16: contract execution is sandboxed.  chain/vm/evm.go (Call / CallCode / DelegateCall / StaticCall around
+(* C16: contract execution is sandboxed.  chain/vm/evm.go (Call / CallCode / DelegateCall / StaticCall / Create around
    Snapshot / RevertToSnapshot), chain/vm/interpreter.go (readOnly, enforceRestrictions), chain/vm/instructions.go
-   (opSstore, makeEvent, opSuicide, the four call opcodes), on the account backend chain/account (change journal).
+   (opSstore, makeEvent, opSuicide, the four call opcodes, opCreate), on the account backend chain/account (change journal).
 
-   A behaviour is one transaction-level call executed as a stack of call frames.  The world is a small abstract
-   account state plus the CHANGE JOURNAL the platform reverts with: a frame remembers the journal length at entry
-   (mark), a failing frame undoes the journal back to its mark.  The frame also keeps a copy of the observable state
-   at entry (snap, a history value) - the clauses of the property compare the undone world with that copy:
+   A behaviour is one transaction-level call or contract creation executed as a stack of frames.  The world is a small
+   abstract account state plus the CHANGE JOURNAL the platform reverts with: a frame remembers the journal length at
+   entry (mark), a failing frame undoes the journal back to its mark.  The frame also keeps a copy of the observable
+   state at entry (snap, a history value) - the clauses of the property compare the undone world with that copy:
 
      FailedFrameIsNoop   a frame ending in revert / error leaves the observable state exactly as at its entry
-                         (apart from gas and the failure event the platform itself records - a named, allowed effect)
+                         (apart from gas and the failure event the platform itself records - a named, allowed effect);
+                         for a CREATION frame "error" includes the two failures of the code deposit: returned code
+                         longer than the maximum ("toobig"), deposit not paid for by the gas left ("nodeposit") - the
+                         endowment, the storage the init code wrote and everything its inner frames did are undone
      StaticIsNoop        while a read-only frame is on the stack the observable state is the one at its entry
      GasNeverGrows       the gas held by all frames together never grows
      GasWithinSupplied   ... and never exceeds the gas supplied
      DepthBound          at most DepthLimit+1 frames (the transaction-level frame has depth 0)
      NoCrash             reverting never aborts the platform
 
-   Two deviation flags reproduce what the code does today (both OFF in the design, ON as negative controls):
+   Deviation flags reproduce what the code does today / what a careless implementation does (all OFF in the design,
+   ON as negative controls):
      devS  undoSuicide restores balance/code/storage ROOT only: storage written earlier in the block is lost
      devG  RevertToSnapshot demands contiguous change-log versions per (account, log type) although versions of
            undone logs are never handed out again: a frame that fails after one of its inner calls failed panics.
+     DevC  a creation whose code deposit fails reports the failure but is not rolled back (negative control only).
 
    The world operators are pure and are reused by TraceCallFrames.tla to re-execute what the REAL EVM did. *)
 EXTENDS CallFramesOps
 
-CONSTANTS InitBal,      \* [Addrs -> Nat]
+CONSTANTS InitBal,      \* [Creators -> Nat], or over more of Addrs (a funded address of Created makes creations collide)
           InitStor      \* [Contracts -> [Slots -> Nat]]  storage committed in the parent block
 
 \* ------------------------------------------------------------------ the generator: all executions within bounds
-CONSTANTS Kinds, Vals, SendVals, SuicideTo, G0, MaxDepth, MaxFan, DepthLimit, DevS, DevG
+CONSTANTS Kinds, Vals, SendVals, SuicideTo, G0, MaxDepth, MaxFan, DepthLimit, DevS, DevG, DevC
 VARIABLES w, stack, gs, fan, done, hist
 vars == <<w, stack, gs, fan, done, hist>>
 Init == /\ w = World0(DevS, DevG, InitBal, InitStor) /\ stack = <<>> /\ gs = <<>> /\ fan = <<>> /\ done = "" /\ hist = <<>>
 Top == stack[Len(stack)]
 Running == done = "" /\ ~w.crash
 \* abstract gas: every action costs one unit, a call passes on all but a quarter (at least one unit kept when
-\* possible) of what is left - the shape of the 63/64 rule on small numbers
+\* possible) of what is left - the shape of the 63/64 rule on small numbers; the code deposit costs one unit
 Pass(g) == g - (g + 3) \div 4
 SumSeq(s) == LET RECURSIVE S(_) S(i) == IF i = 0 THEN 0 ELSE s[i] + S(i - 1) IN S(Len(s))
 TotalGas == SumSeq(gs)
+\* an address of Created that holds funds in the parent block: evm.Create refuses it (ErrContractAddressCollision)
+Taken(a) == BalOf(InitBal, a) > 0
+\* a creation can be started towards to: the creator's own address, nothing made there in this transaction
+Creatable(ctx, to) == ctx \in Creators /\ to = New(ctx) /\ ~w.code[to] /\ ~w.dead[to]
 
 EnterTop(kind, to, val) ==
-  /\ Running /\ stack = <<>> /\ hist = <<>> /\ kind = "call" /\ val \in SendVals /\ val <= w.bal[Sender]
+  /\ Running /\ stack = <<>> /\ hist = <<>> /\ kind \in Kinds \cap {"call", "create"} /\ val \in SendVals /\ val <= w.bal[Sender]
+  /\ IF kind = "create" THEN Creatable(Sender, to) /\ ~Taken(to) ELSE to \in Contracts
   /\ w' = EnterW(w, kind, Sender, to, val)
   /\ stack' = <<Frame(w, kind, Sender, FALSE, to)>> /\ gs' = <<G0>> /\ fan' = <<0>>
   /\ hist' = <<<<"Enter", kind, to, val>>>> /\ UNCHANGED done
 Enter(kind, to, val) ==
   \/ EnterTop(kind, to, val)
   \/ /\ Running /\ stack # <<>> /\ Len(stack) < MaxDepth /\ fan[Len(stack)] < MaxFan /\ gs[Len(stack)] >= 1
-     /\ kind \in Kinds /\ w.code[to]
-     /\ val \in (IF kind \in {"call", "callcode"} THEN SendVals ELSE {0})
+     /\ kind \in Kinds
+     /\ IF kind = "create" THEN Creatable(Top.ctx, to) /\ ~Taken(to) /\ ~Top.ro   \* (inside a read-only frame: a write-protection failure)
+                           ELSE w.code[to]
+     /\ val \in (IF kind \in {"call", "callcode", "create"} THEN SendVals ELSE {0})
      /\ val <= w.bal[Top.ctx]                          \* enough balance (the denied call is not generated)
      /\ ~(Top.ro /\ kind = "call" /\ val > 0)          \* that is a write-protection failure of the caller
      /\ Len(stack) <= DepthLimit                       \* else evm.Call returns ErrDepth
@@ -59,6 +71,14 @@ Enter(kind, to, val) ==
         /\ gs' = Append([gs EXCEPT ![n] = g - Pass(g)], Pass(g))
         /\ fan' = Append([fan EXCEPT ![n] = @ + 1], 0)
      /\ hist' = Append(hist, <<"Enter", kind, to, val>>) /\ UNCHANGED done
+\* a creation towards an address that holds funds already: refused before anything happens, the gas passed on is gone
+Collide(val) ==
+  /\ Running /\ stack # <<>> /\ "create" \in Kinds /\ fan[Len(stack)] < MaxFan /\ gs[Len(stack)] >= 1
+  /\ ~Top.ro /\ Top.ctx \in Creators /\ Taken(New(Top.ctx))
+  /\ val \in SendVals /\ val <= w.bal[Top.ctx] /\ Len(stack) <= DepthLimit
+  /\ LET n == Len(stack)  g == gs[n] - 1 IN
+     /\ gs' = [gs EXCEPT ![n] = g - Pass(g)] /\ fan' = [fan EXCEPT ![n] = @ + 1]
+  /\ hist' = Append(hist, <<"Collide", val>>) /\ UNCHANGED <<w, stack, done>>
 SStore(s, v) ==
   /\ Running /\ stack # <<>> /\ ~Top.ro /\ gs[Len(stack)] >= 1
   /\ w' = SStoreW(w, Top.ctx, s, v) /\ gs' = [gs EXCEPT ![Len(stack)] = @ - 1]
@@ -72,35 +92,54 @@ Pop(outcome, returned) ==
   /\ stack' = SubSeq(stack, 1, n - 1) /\ fan' = SubSeq(fan, 1, n - 1)
   /\ gs' = IF n = 1 THEN <<returned>> ELSE [SubSeq(gs, 1, n - 1) EXCEPT ![n - 1] = @ + returned]
   /\ done' = IF w'.crash THEN "crash" ELSE IF n = 1 THEN outcome ELSE ""
-\* ok keeps the effects and returns the gas left; revert undoes and returns the gas; fail undoes and burns it
+\* ok keeps the effects and returns the gas left (a creation: after the deposit); revert undoes and returns the gas;
+\* fail - and the two deposit failures of a creation - undo and burn it
+Outcomes == {"ok", "revert", "fail", "toobig", "nodeposit"}
+Failing == Outcomes \ {"ok"}
 Exit(outcome) ==
-  /\ Running /\ stack # <<>> /\ outcome \in {"ok", "revert", "fail"}
-  /\ w' = IF outcome = "ok" THEN w ELSE FailW(w, Top)
-  /\ Pop(outcome, IF outcome = "fail" THEN 0 ELSE gs[Len(stack)])
+  /\ Running /\ stack # <<>> /\ outcome \in Outcomes
+  /\ outcome \in {"toobig", "nodeposit"} => Top.k = "create"
+  /\ (outcome = "ok" /\ Top.k = "create") => gs[Len(stack)] >= 1
+  /\ w' = IF outcome = "ok" THEN (IF Top.k = "create" THEN CreatedW(w, Top, TRUE) ELSE w)
+          ELSE IF DevC /\ outcome \in {"toobig", "nodeposit"} THEN EventW(w, Top.to, "fail")
+          ELSE FailW(w, Top)
+  /\ Pop(outcome, CASE outcome = "ok" -> gs[Len(stack)] - (IF Top.k = "create" THEN 1 ELSE 0)
+                    [] outcome = "revert" -> gs[Len(stack)]
+                    [] OTHER -> 0)
   /\ hist' = Append(hist, <<"Exit", outcome>>)
 Suicide(b) ==
   /\ Running /\ stack # <<>> /\ ~Top.ro /\ gs[Len(stack)] >= 1 /\ b \in SuicideTo
-  /\ w' = SuicideW(w, Top.ctx, b)
+  /\ w' = LET w1 == SuicideW(w, Top.ctx, b) IN IF Top.k = "create" THEN CreatedW(w1, Top, FALSE) ELSE w1
   /\ Pop("ok", gs[Len(stack)] - 1)
   /\ hist' = Append(hist, <<"Suicide", b>>)
-Next == \/ \E k \in Kinds, c \in Contracts, v \in SendVals : Enter(k, c, v)
+Next == \/ \E k \in Kinds, c \in CA, v \in SendVals : Enter(k, c, v)
+        \/ \E v \in SendVals : Collide(v)
         \/ \E s \in Slots, v \in Vals : SStore(s, v)
         \/ \E x \in {0} : Log(x)
-        \/ \E o \in {"ok", "revert", "fail"} : Exit(o)
+        \/ \E o \in Outcomes : Exit(o)
         \/ \E b \in SuicideTo : Suicide(b)
 Spec == Init /\ [][Next]_vars
 
 \* ------------------------------------------------------------------ the clauses of C16
 FailedFrameIsNoop ==
-  [][\A o \in {"revert", "fail"} : (Exit(o) /\ ~w'.crash) =>
+  [][\A o \in Failing : (Exit(o) /\ ~w'.crash) =>
         /\ Obs(w') = Top.snap
-        /\ NEv(w', "fail") \in {Top.nfail, Top.nfail + 1}]_vars       \* the recorded failure event, nothing else
-OkKeepsEffects == [][Exit("ok") => w' = w]_vars
+        /\ NEv(w', "fail") \in {Top.nfail, Top.nfail + 1}             \* the recorded failure event, nothing else
+        /\ NEv(w', "create") <= NEv(w, "create")]_vars                \* ... and no creation record of the undone frame
+\* a frame that succeeds keeps what it did; a creation adds the code and the platform's creation record, nothing else
+OkKeepsEffects ==
+  [][Exit("ok") => IF Top.k = "create" THEN /\ Obs(w') = [Obs(w) EXCEPT !.code[Top.to] = TRUE]
+                                             /\ NEv(w', "create") = NEv(w, "create") + 1 /\ NEv(w', "fail") = NEv(w, "fail")
+                   ELSE w' = w]_vars
+\* a creation that is refused for a collision changes nothing
+CollisionIsNoop == [][\A v \in SendVals : Collide(v) => w' = w]_vars
 StaticIsNoop == ~w.crash => \A i \in 1..Len(stack) : stack[i].ro => Obs(w) = stack[i].snap
 GasNeverGrows == [][SumSeq(gs') <= SumSeq(gs) \/ stack = <<>>]_vars
 GasWithinSupplied == TotalGas <= G0
 DepthBound == Len(stack) <= DepthLimit + 1
 NoCrash == ~w.crash
 JournalMarksOrdered == \A i \in 1..Len(stack) : stack[i].mark <= Len(w.jr) /\ (i > 1 => stack[i - 1].mark <= stack[i].mark)
+\* code only ever appears at an address through a creation frame that succeeded
+CodeOnlyByCreation == \A c \in Created : w.code[c] => NEv(w, "create") >= 1
 ViewNoHist == <<w, stack, gs, fan, done>>
 ====
